@@ -32,6 +32,11 @@ func (proj *SR) getDatum() *datum {
 	this.datum_type = pjdWGS84 //default setting
 	if proj.DatumCode == "" || proj.DatumCode == "none" {
 		this.datum_type = pjdNoDatum
+	} else if _, known := datumDefs[proj.DatumCode]; !known && proj.DatumCode != "WGS84" && len(proj.DatumParams) == 0 {
+		// A datum name that is not in the table and comes without TOWGS84
+		// (the DATUM of an ESRI .prj file) says no more about the relation to
+		// WGS84 than a definition without +datum does.
+		this.datum_type = pjdNoDatum
 	}
 
 	if len(proj.DatumParams) > 0 {
